@@ -6,10 +6,12 @@ package main
 
 import (
 	"fmt"
+	"sort"
 
 	"github.com/hashicorp/hcl-lang/lang"
 	"github.com/hashicorp/hcl-lang/schema"
 	"github.com/hashicorp/hcl/v2"
+	"github.com/hashicorp/hcl/v2/hclsyntax"
 	"github.com/zclconf/go-cty/cty"
 	"github.com/zclconf/go-cty/cty/function"
 )
@@ -893,6 +895,7 @@ func kinds() *World {
 			"ref":   {IsOptional: true, Constraint: schema.Reference{OfType: cty.String}},
 			"sref":  {IsOptional: true, Constraint: schema.Reference{OfScopeId: "thing"}},
 			"td":    {IsOptional: true, Constraint: schema.TypeDeclaration{}},
+			"td2":   {IsOptional: true, Constraint: schema.TypeDeclaration{}},
 			"lst":   {IsOptional: true, Constraint: schema.List{Elem: schema.LiteralType{Type: cty.String}}},
 			"st":    {IsOptional: true, Constraint: schema.Set{Elem: schema.Reference{OfScopeId: "thing"}}},
 			"tup":   {IsOptional: true, Constraint: schema.Tuple{Elems: []schema.Constraint{schema.LiteralType{Type: cty.String}, schema.Reference{OfType: cty.Number}}}},
@@ -920,6 +923,7 @@ func kinds() *World {
 						"s": {IsOptional: true, Constraint: schema.AnyExpression{OfType: cty.String}},
 						"n": {IsOptional: true, Constraint: schema.AnyExpression{OfType: cty.Number}},
 						"l": {IsOptional: true, Constraint: schema.AnyExpression{OfType: cty.List(cty.String)}},
+						"m": {IsOptional: true, Constraint: schema.AnyExpression{OfType: cty.Map(cty.String)}},
 					},
 					Blocks: map[string]*schema.BlockSchema{
 						"part": {Type: schema.BlockTypeList, Body: &schema.BodySchema{Attributes: map[string]*schema.AttributeSchema{
@@ -938,6 +942,7 @@ flag = true
 ref  = thing.a.s
 sref = thing.b
 td   = map(list(object({ a = string, b = optional(number, 1) })))
+td2  = tuple([string, set(number)])
 lst  = ["x", "yy"]
 st   = [thing.a, thing.b]
 tup  = ["s", thing.a.n]
@@ -961,6 +966,7 @@ thing "a" {
   s = "ß"
   n = 1
   l = ["p", "q"]
+  m = { k1 = "x", k2 = thing.a.m["k1"], ("k3") = "z" }
   part {
     w = self.n
     h = 3
@@ -1209,7 +1215,7 @@ func modsWorld(unreadable bool) *World {
 }
 
 func allWorlds() []*World {
-	ws := []*World{kinds(), worldTF(), worldPair(), worldTFJSON(), worldTFBad(), hostile(), modsWorld(false), modsWorld(true)}
+	ws := []*World{kinds(), kindSplit(), worldTF(), worldPair(), worldTFJSON(), worldTFBad(), hostile(), modsWorld(false), modsWorld(true)}
 	for _, w := range ws {
 		for _, pw := range w.Peers {
 			if err := pw.Schema.Validate(); err != nil {
@@ -1221,6 +1227,29 @@ func allWorlds() []*World {
 		}
 	}
 	return ws
+}
+
+// kindsplit: every top-level item of the kinds document in a file of its own, so that every construct is also seen on
+// the first line of a file (positions computed from columns instead of offsets coincide with the right ones only there).
+func kindSplit() *World {
+	k := kinds()
+	src := []byte(k.Docs["k.tf"])
+	f, _ := hclsyntax.ParseConfig(src, "k.tf", hcl.InitialPos)
+	body := f.Body.(*hclsyntax.Body)
+	type item struct{ s, e int }
+	items := []item{}
+	for _, a := range body.Attributes {
+		items = append(items, item{a.SrcRange.Start.Byte, a.SrcRange.End.Byte})
+	}
+	for _, b := range body.Blocks {
+		items = append(items, item{b.Range().Start.Byte, b.Range().End.Byte})
+	}
+	sort.Slice(items, func(i, j int) bool { return items[i].s < items[j].s })
+	docs := map[string]string{}
+	for i, it := range items {
+		docs[fmt.Sprintf("k%02d.tf", i)] = string(src[it.s:it.e]) + "\n"
+	}
+	return &World{Name: "kindsplit", Schema: k.Schema, Funcs: k.Funcs, Docs: docs}
 }
 
 func worldByName(n string) *World {
